@@ -6,7 +6,9 @@ import H3.Model.E2E
     what the client (resp. server) application submitted on request stream `q<sid>` is what the
     peer application must be handed — same method, target, protocol, header values in the same
     per-name order, body = concatenation of the pieces sent, trailers — and then exactly one clean
-    end, AND NOTHING ELSE: no call of either endpoint is left pending, neither endpoint has closed
+    end (a target without scheme and authority is seen completed by `https` and the `Host` value,
+    `specTarget`; every `send_response` before the last one is an interim response and must be
+    answered by a `recv_response` call of its own, in order), AND NOTHING ELSE: no call of either endpoint is left pending, neither endpoint has closed
     the connection, reset a request stream or asked the peer to stop sending on one, and no call
     has answered anything the line does not account for (`extra=-`: a `recv_data` answer other than
     data outside the reader loop, an error of a sending call, an error of a driver).  Transport
@@ -50,12 +52,17 @@ def canonTargetHex (h : String) : String :=
 
 structure Msg where
   head : String := ""          -- request: `METHOD:<uri hex>:<proto>`; response: `<status>`
+  /-- requests: the head the SPEC half demands (`METHOD:<specTarget>:<proto>`) -/
+  specHead : String := ""
   headers : List (String × String) := []
   body : String := ""          -- hex, concatenated
   trailers : Option (List (String × String)) := none
   sentHead : Bool := false
   /-- the `sd` arguments one by one (hex, `-` = an empty buffer) -/
   pieces : List String := []
+  /-- responses only: the heads (status, headers) of the `send_response` calls made before the last one
+      (interim responses, 1xx), in call order -/
+  interims : List (String × List (String × String)) := []
 
 def parseHdrs (s : String) : List (String × String) :=
   if s == "-" || s == "" then [] else
@@ -75,8 +82,12 @@ def insertSorted (p : String × String) : List (String × String) → List (Stri
 def sortHdrs (hs : List (String × String)) : List (String × String) :=
   hs.mergeSort (fun a b => !(b.1 < a.1))
 
+/-- a `*` inside a field name is printed `\x2a` (the projection of the implementation's answer does the
+    same): in a specification token `*` would be a wildcard, and the specification demands the name itself -/
+def escName (n : String) : String := n.replace "*" "\\x2a"
+
 def renderHdrs (hs : List (String × String)) : String :=
-  if hs.isEmpty then "-" else ";".intercalate ((sortHdrs hs).map (fun p => p.1 ++ "=" ++ p.2))
+  if hs.isEmpty then "-" else ";".intercalate ((sortHdrs hs).map (fun p => escName p.1 ++ "=" ++ p.2))
 
 def hexCat (a b : String) : String :=
   if b == "-" then a else a ++ b
@@ -107,8 +118,33 @@ def taskSid (t : String) : Option Nat :=
   let ds := if cs.getLast? == some 's' then cs.dropLast else cs
   (String.ofList ds).toNat?
 
-def stepOp (st : St) (op : String) : St :=
+/-- `<side>.<task>.<cmd>`: only the first two dots separate (a field name may contain `.`) -/
+def splitOp (op : String) : List String :=
   match op.splitOn "." with
+  | a :: b :: c :: rest => [a, b, ".".intercalate (c :: rest)]
+  | l => l
+
+/-- SPEC: the target the receiving application must see.  An absolute-form target as submitted (empty path =
+    `/`), an authority-form target as submitted; a target without scheme and authority (origin form, `/x?y=1`)
+    names its authority in the `Host` field (RFC 9110 7.2) and is sent with `:scheme: https` (what h3's sender
+    puts there when the URI has none), so the receiver sees `https://<Host value><path>` — the theorem's
+    `expectedHead` (`effAuthority`). -/
+def specTarget (h : String) (hdrs : List (String × String)) : String :=
+  match H3.Drv.parseHex h with
+  | some u =>
+    if u.head? == some 47 then
+      match hdrs.find? (fun p => p.1 == "host") with
+      | some (_, hv) => if hv == "-" then h else H3.Drv.toHex [104, 116, 116, 112, 115, 58, 47, 47] ++ hv ++ h
+      | none => h
+    else H3.Drv.toHex (canonTarget u)
+  | none => h
+
+/-- a further `send_response` on a stream: the head sent before becomes an interim response -/
+def keepInterim (m : Msg) : List (String × List (String × String)) :=
+  if m.sentHead then m.interims ++ [(m.head, m.headers)] else m.interims
+
+def stepOp (st : St) (op : String) : St :=
+  match splitOp op with
   | ["c", "snd", cmd] =>
     match cmd.splitOn ":" with
     | ["R", method, uri, hdrs] =>
@@ -116,7 +152,7 @@ def stepOp (st : St) (op : String) : St :=
         | [m, p] => (m, p)
         | _ => (method, "-")
       let sid := st.nextSid
-      { st with reqs := upd st.reqs sid (fun _ => { head := s!"{m}:{canonTargetHex uri}:{proto}", headers := parseHdrs hdrs, sentHead := true }),
+      { st with reqs := upd st.reqs sid (fun _ => { head := s!"{m}:{canonTargetHex uri}:{proto}", specHead := s!"{m}:{specTarget uri (parseHdrs hdrs)}:{proto}", headers := parseHdrs hdrs, sentHead := true }),
                 nextSid := sid + 4 }
     | _ => st
   | [side, task, cmd] =>
@@ -127,8 +163,9 @@ def stepOp (st : St) (op : String) : St :=
       let f : Msg → Msg := match parts with
         | ["sd", h] => fun m => { m with body := hexCat m.body h, pieces := m.pieces ++ [h] }
         | ["st", t] => fun m => { m with trailers := some (parseHdrs t) }
-        | ["sr", status] => fun m => { m with head := status, sentHead := true }
-        | ["sr", status, h] => fun m => { m with head := status, headers := parseHdrs h, sentHead := true }
+        | ["sr", status] => fun m => { m with head := status, sentHead := true, interims := keepInterim m }
+        | ["sr", status, h] => fun m =>
+          { m with head := status, headers := parseHdrs h, sentHead := true, interims := keepInterim m }
         | _ => id
       if side == "c" then { st with reqs := updExisting st.reqs sid f }
       else if side == "s" then
@@ -148,9 +185,12 @@ def nothingElse : String :=
 def expected (ops : List String) : String :=
   let st := ops.foldl stepOp {}
   let reqLines := st.reqs.map (fun (sid, m) =>
-    s!"s.q{sid}.res=ok:{m.head}:{renderHdrs m.headers} s.q{sid}.rm={renderBody m}")
+    s!"s.q{sid}.res=ok:{m.specHead}:{renderHdrs m.headers} s.q{sid}.rm={renderBody m}")
+  -- every `send_response` of the server is one answer of `recv_response`, in call order (interim responses
+  -- first); the body and the trailers follow the last one
   let respLines := (bySid st.resps).filter (·.2.sentHead) |>.map (fun (sid, m) =>
-    s!"c.q{sid}.rr=ok:{m.head}:{renderHdrs m.headers} c.q{sid}.rm={renderBody m}")
+    " ".intercalate (m.interims.map (fun i => s!"c.q{sid}.rr=ok:{i.1}:{renderHdrs i.2}") ++
+      [s!"c.q{sid}.rr=ok:{m.head}:{renderHdrs m.headers} c.q{sid}.rm={renderBody m}"]))
   " ".intercalate (reqLines ++ respLines ++ [nothingElse])
 
 /-! ### the model half -/
@@ -279,6 +319,57 @@ def modelPart (role : H3.ReqRecv.Role) (pre headCmd : String) (sid : Nat) (greas
     let t := recvPattern role (hdrOf echo role limit) (chunked (chunkSize w.length) w)
     partOf pre headCmd sid t (deliverOf echo role limit t)
 
+/-! interim responses: the response stream carries one HEADERS frame per `send_response` call made before
+    the last one, then the final message; the client calls `recv_response` once per head -/
+
+def interimOf (i : String × List (String × String)) : Option Message :=
+  i.1.toNat?.map fun st => { head := .response st, headers := fieldLines i.2, pieces := [], trailers := none }
+
+open H3.ReqRecv (FSt Res fsSrc pollHead) in
+/-- `recv_response().await` `k` times, each answering a head -/
+def recvInterims (H : H3.ReqRecv.Hdr) : Nat → H3.ReqRecv.St FSt → List Res × H3.ReqRecv.St FSt
+  | 0, st => ([], st)
+  | k+1, st =>
+    let p := awaitCall (pollHead .client fsSrc H) st
+    match p.1 with
+    | .head b =>
+      let q := recvInterims H k p.2
+      (.head b :: q.1, q.2)
+    | r => ([r], p.2)
+
+open H3.ReqRecv (FSt Res fsSrc pollHead) in
+/-- `H3.E2E.recvPattern` from a stream state on which calls have been made already -/
+def patternFrom (H : H3.ReqRecv.Hdr) (st : H3.ReqRecv.St FSt) : H3.ReqRecv.Trace :=
+  let p := awaitCall (pollHead .client fsSrc H) st
+  match p.1 with
+  | .head b =>
+    let q := recvTail H p.2
+    { head := .head b, body := q.1, trailers := q.2.1, env := q.2.2 }
+  | r => { head := r, env := p.2.env }
+
+def renderInterim (sid : Nat) (r : H3.ReqRecv.Res) : String :=
+  match r with
+  | .head b =>
+    match decodeHead echo .client limit b with
+    | some (.response st hm) => s!"c.q{sid}.rr=ok:{st}:{renderHdrs (mapPairs hm)}"
+    | _ => s!"c.q{sid}.rr=model-no-head"
+  | _ => s!"c.q{sid}.rr=model-no-head"
+
+/-- a response with interim responses in front of it -/
+def modelResp (sid : Nat) (grease : Bool) (ims : List (String × List (String × String))) (msg : Option Message) : Part :=
+  if ims.isEmpty then modelPart .client "c" "rr" sid grease msg else
+  match msg, ims.mapM interimOf with
+  | some m, some is =>
+    let w := (is.map wire).flatten ++ streamBytes m (if grease then some 0 else none)
+    let H := hdrOf echo .client limit
+    let p := recvInterims H is.length { src := ({}, chunked (chunkSize w.length) w) }
+    if p.1.length == is.length && p.1.all (fun r => match r with | .head _ => true | _ => false) then
+      let t := patternFrom H p.2
+      let part := partOf "c" "rr" sid t (deliverOf echo .client limit t)
+      { part with toks := " ".intercalate (p.1.map (renderInterim sid) ++ [part.toks]) }
+    else { toks := " ".intercalate (p.1.map (renderInterim sid)), pending := [s!"c.q{sid}.rr"] }
+  | _, _ => { toks := s!"c.q{sid}.rr=model-bad-message" }
+
 def listOr (l : List String) : String := if l.isEmpty then "-" else ",".intercalate l
 
 /-- the summary tokens: nothing else happened at either endpoint -/
@@ -299,7 +390,7 @@ def model (ccfg scfg : String) (ops : List String) : String :=
   let reqs := st.reqs.map (fun (sid, m) =>
     modelPart .server "s" "res" sid (hasGrease ccfg && first == some sid) (requestOf m))
   let resps := (bySid st.resps).filter (·.2.sentHead) |>.map
-    (fun (sid, m) => modelPart .client "c" "rr" sid (hasGrease scfg && first == some sid) (responseOf m))
+    (fun (sid, m) => modelResp sid (hasGrease scfg && first == some sid) m.interims (responseOf m))
   " ".intercalate ((reqs ++ resps).map (·.toks) ++ [summary reqs resps])
 
 def handle : List String → String
